@@ -20,6 +20,7 @@ source-order resolver (`lookup_rename` …) are kept below.
 import Selene.Scope.Spec
 import Selene.Scope.RenameProof
 import Selene.Scope.CoreProof
+import Selene.Scope.ManualTableCloneRename
 namespace Selene.Props.C14
 open Selene.Scope.Spec
 
@@ -85,6 +86,42 @@ theorem lookup_rename_fresh (ρ : String → String) (env : Env) (n : String)
     (hinj : ∀ e ∈ env, ρ e.1 = ρ n → e.1 = n) (h : env.lookup n = none) :
     (renameEnv ρ env).lookup (ρ n) = none := by
   rw [lookup_rename ρ env n hinj]; exact h
+
+/-! ### a lint whose trigger mentions names: manual_table_clone -/
+
+open Selene.Scope.ManualTableClone in
+/-- **C14 (manual_table_clone: only `pairs`, `ipairs`, `next` are special).** For every generic `for` loop and every
+injective renaming that leaves these three spellings alone, the renamed loop has the shape the lint looks for exactly
+when the original has — with the same loop type (which decides the `ipairs` note), the renamed loop expression (quoted in
+the note) and the renamed table.  A name that merely *ends* in `pairs` is a script-chosen name like any other. -/
+theorem C14_clone_shape_invariant {ρ : String → String} (h : Respectful ρ)
+    (names : List Selene.Lua.Tok) (es : Selene.Lua.ExprList) (b : Selene.Lua.Block) :
+    shape (names.map (Selene.Lua.Tok.ren ρ)) (es.ren ρ) (b.ren ρ) =
+      (shape names es b).map fun p => (p.1, p.2.1.ren ρ, p.2.2.ren ρ) :=
+  shape_ren h names es b
+
+/-- the hypothesis is satisfiable by a renaming that is not the identity … -/
+example : Selene.Scope.ManualTableClone.Respectful (fun n => if n = "spairs" then "walked" else if n = "walked" then "spairs" else n) := by
+  refine ⟨?_, by decide, by decide, by decide⟩
+  intro a b h
+  by_cases ha : a = "spairs" <;> by_cases hb : b = "spairs" <;> by_cases ha' : a = "walked" <;> by_cases hb' : b = "walked" <;>
+    simp_all
+
+open Selene.Lua Selene.Scope.ManualTableClone in
+/-- … and the loop of the seeded defect (`for name, score in spairs(scores, descending) do copy[name] = score end`) has the
+shape — looping over the whole call, not through `pairs` — whatever the iterator is called -/
+example :
+    let loop := fun (f : String) =>
+      shape [⟨1, "name"⟩, ⟨3, "score"⟩]
+        (.cons (.call (.mk ⟨5, 10⟩ (.name ⟨5, f⟩) (.cons (.args ⟨6, 10⟩ (.parens ⟨6, 10⟩
+          (.cons (.var (.name ⟨7, "scores"⟩)) (.cons (.var (.name ⟨9, "descending"⟩)) .nil)))) .nil))) .nil)
+        (.mk (some ⟨12, 17⟩) (.cons (.assign ⟨12, 17⟩
+          (.cons (.expr ⟨12, 15⟩ (.name ⟨12, "copy"⟩) (.cons (.idx ⟨13, 15⟩ (.var (.name ⟨14, "name"⟩))) .nil)) .nil)
+          (.cons (.var (.name ⟨17, "score"⟩)) .nil)) .nil) .none)
+    ((loop "spairs").map fun p => (p.1, p.2.2.text)) = some (.other, "copy") ∧
+    ((loop "walked").map fun p => (p.1, p.2.2.text)) = some (.other, "copy") ∧
+    (loop "pairs").isNone := by
+  decide
 
 /-- declaring under the renamed name is the renaming of declaring under the old one -/
 theorem declare_rename (ρ : String → String) (env : Env) (t : Nat) (name : String) (k : DeclKind) :
